@@ -285,6 +285,37 @@ def check_record(ctx):
             v = A.tracer(b).node_value(b.defs[0][0]) if len(b.defs.get(0, [])) == 1 else None
             l = lin(b, v, {}, set()) if v is not None else None
             ctx.check(l is not None and l.t() == spec["header"], inst, "PIN", b.path, "%s::%s = %d + key_len" % (impl, nm, spec["header"][0]), b.where(b.entry), {"found": l.t() if l else None})
+    # header_range: decides (for the token stamper and for recovery) whether a block starts a record; a header that
+    # exactly fills the block (key of the maximum recoverable length) must be accepted: the bound is strict
+    b = ctx.fn("seq_token::header_range", inst)
+    if b is not None:
+        hs = ctx.sites(b, R.call("RecordFormat::record_header_size"), inst, exact=1)
+        def blk(e):
+            return e.k == "bin" and e.extra == "Lt" and e.a[0].has_const(name="FEOX_BLOCK_SIZE") and any(c.nid in hs for c in e.a[1].calls())
+        def ln(e):
+            return e.k == "bin" and e.extra == "Lt" and e.a[0].has_call("slice::len") and any(c.nid in hs for c in e.a[1].calls())
+        ctx.check(len(A.pred_switches(b, blk)) == 1, inst, "PIN", b.path, "a header is rejected only if it is strictly larger than one block (`end > FEOX_BLOCK_SIZE`)", None)
+        ctx.check(len(A.pred_switches(b, ln)) == 1, inst, "PIN", b.path, "or strictly larger than the bytes available (`end > data.len()`)", None)
+        somes = [n.id for n in b.nodes if n.kind == "assign" and not n.ev["dst"]["p"] and n.ev["dst"]["l"] == 0 and n.ev["rv"] == "agg" and n.ev.get("var") == "Some"]
+        R.guard(ctx, inst, b, somes, A.pred_edges(b, blk, "false"), "Some(range) when the header fits in the block")
+        kl = [n for n in b.calls() if call_matches(n.ev, "from_le_bytes") and width_of(n.ev) == "u16"]
+        for n in kl:
+            idx = const_indices(A.tracer(b).operand(n.ev["args"][0]))
+            ctx.check(idx == [4, 5], inst, "PIN", b.path, "header_range reads key_len from bytes [4], [5]", b.where(n.id), {"indices": idx})
+        for s_ in somes:
+            v = A.tracer(b).operand(b.nodes[s_].ev["ops"][0])
+            ok = v.k == "agg" and len(v.a) == 2 and v.a[0].has_const(name="SECTOR_HEADER_SIZE") and any(c.nid in hs for c in v.a[1].calls())
+            ctx.check(ok, inst, "PIN", b.path, "the header range is SECTOR_HEADER_SIZE .. record_header_size(key_len)", b.where(s_), {"expr": v.show()})
+    # the key-size limits agree with that bound: MAX_RECOVERABLE_KEY_SIZE(_V1) = FEOX_BLOCK_SIZE - header(0)
+    try:
+        blk_c = ctx.prog.const("constants::FEOX_BLOCK_SIZE")["val"]
+        for cname, impl in (("constants::MAX_RECOVERABLE_KEY_SIZE", "FormatV2"), ("constants::MAX_RECOVERABLE_KEY_SIZE_V1", "FormatV1")):
+            want = blk_c - SPEC["record"][impl]["header"][0]
+            got = ctx.prog.const(cname)["val"]
+            ctx.check(got == want, inst, "SIBLING", cname, "%s = FEOX_BLOCK_SIZE - %s header (a maximum-length key exactly fills the head block)" % (cname.rsplit("::", 1)[-1], impl), None,
+                      {"found": got, "expected": want})
+    except Exception as ex:
+        ctx.anchor_missing(inst, "key-size constants: %s" % ex)
     # sector_holds_record: same prefix
     b = ctx.fn("format::sector_holds_record", inst)
     if b is not None:
